@@ -146,6 +146,13 @@ func checkC12(r *Run) int {
 		c.ImportPathOverrides = map[string]string{"types": "example.com/acme/api/types"}
 		c.TargetPkg = "tfschema"
 	}})
+	// options keyed by a path through a message that other roots reach as well (custom type, rename, exclusion):
+	// the other roots' functions must not depend on whether that root is selected too
+	worlds = append(worlds, world{"f5-path-options", base, space.F5Roots, extList[:1], func(c *dsl.Config) {
+		c.CustomTypes = map[string]string{"Alpha.Meta.Label": "LabelCustom", "Gamma.Deep.Inner.ID": "IDCustom"}
+		c.NameOverrides = map[string]string{"Alpha.Items.Tiny.N": "alpha_n"}
+		c.Exclude = []string{"Beta.Meta.Tiny.On"}
+	}})
 	for _, wd := range worlds {
 		base := wd.file
 		for _, sub := range subsets(wd.roots) {
